@@ -6,7 +6,7 @@ from vlib import coqrun
 from vlib.common import COQ
 
 STATIC = ["C14S/PyList.v", "C14S/StackSpec.v", "C14S/StackSpecProofs.v", "C14S/Spill.v", "C14S/SpillProofs.v", "C14S/SpillInv.v",
-          "C14S/ReorderProofs.v", "C14S/Script.v"]
+          "C14S/ReorderProofs.v", "C14S/ReorderFull.v", "C14S/Script.v"]
 PER_RUN = ["C14S/GenStackModel.v", "C14S/TieStackModel.v", "C14S/PropsStack.v"]
 IMPORTS = "From Verif Require Import Base.PyInt C14S.PyList C14S.StackSpec C14S.Spill C14S.Script.\n"
 NEXT0 = 4096
@@ -27,7 +27,7 @@ class Ids:
         return 4 * k + 1
 
     def lit(self, k):
-        o = self.L(1000 + k)
+        o = self.L(4 * k)      # literal value = its id (so the pushed word is the id)
         self.by_id[4 * k] = o
         return 4 * k
 
@@ -74,9 +74,15 @@ def norm_asm(asm):
         elif t == "POP":
             out += [6]
             i += 1
+        elif type(t).__name__ == "PUSHLABEL":
+            out += [7, LABEL_IDS[t.label.label]]
+            i += 1
         else:
             raise ValueError(f"unexpected assembly item {t!r}")
     return out
+
+
+LABEL_IDS = {f"lab{k}": 4 * k + 2 for k in range(64)}
 
 
 ERR = {AssertionError: 1, IndexError: 2, KeyError: 3, TypeError: 4}
@@ -144,12 +150,35 @@ class Real:
         elif k == "reorder" and not c[1]:
             ops = c[2]
             valid = len(set(ops)) == len(ops) and all(o in before or o in sp_before for o in ops) and len(ops) > 0
+        elif k == "popmany":
+            present = [x for x in dict.fromkeys(c[1]) if x in before]
+            valid = len(present) == len(c[1]) and len(c[1]) > 0
+            if valid:
+                rest = list(before)
+                for x in present:
+                    rest.remove(x)
+                want_multiset = sorted(rest)
+        elif k == "emit" and not c[1]:
+            ops = c[2]
+            vars_ = [o for o in ops if o % 4 == 1]
+            valid = len(set(vars_)) == len(vars_) and all(o in before or o in sp_before for o in vars_)
         if valid and not ok:
             self.oracle_bad.append({"command": [str(x) for x in c], "stack_before": before, "problem": f"valid command raised (error class {self.failed[2]})"})
         elif valid and ok:
             after = self.stack_ids()
             if want is not None and after != want:
                 self.oracle_bad.append({"command": [str(x) for x in c], "stack_before": before, "stack_after": after, "expected": want})
+            if k == "popmany" and sorted(after) != want_multiset:
+                self.oracle_bad.append({"command": [str(x) for x in c], "stack_before": before, "stack_after": after,
+                                        "problem": "popmany did not remove exactly the requested operands"})
+            if k == "emit":
+                ops, live = c[2], c[3]
+                restored = [o for o in ops if o % 4 == 1 and o in sp_before]
+                delta = sum(1 for o in ops if o % 4 != 1) + len(restored) + sum(1 for o in ops if o % 4 == 1 and o in live)
+                if len(after) != len(before) + delta:
+                    self.oracle_bad.append({"command": [str(x) for x in c], "stack_before": before, "stack_after": after,
+                                            "problem": f"_emit_input_operands changed the height by {len(after) - len(before)}, expected {delta} "
+                                                       "(one slot per literal/label/restored operand and per operand that stays live)"})
             if k == "reorder":
                 ops = c[2]
                 top = after[-len(ops):]
@@ -189,6 +218,12 @@ class Real:
                 from vyper.evm.assembler.instructions import PUSH
                 asm.extend(PUSH(c[1]))
                 stack.push(ids.op(c[1]))
+            elif k == "emit":
+                import types
+                inst = types.SimpleNamespace(opcode="invoke" if c[1] else "add")
+                vc._emit_input_operands(asm, inst, [ids.op(i) for i in c[2]], stack, OrderedSet(ids.op(i) for i in c[3]), spilled)
+            elif k == "popmany":
+                vc.popmany(asm, [ids.op(i) for i in c[1]], stack)
             elif k == "swap_op":
                 self.costs.append(vc.swap_op(asm, stack, ids.op(c[1])))
             elif k == "dup_op":
@@ -219,7 +254,8 @@ def coq_cmd(c):
     return {"swap": lambda: f"CSwap {z(c[1])}", "dup": lambda: f"CDup {z(c[1])}", "spill": lambda: f"CSpill {z(c[1])}",
             "restore": lambda: f"CRestore {c[1]}", "release": lambda: f"CRelease {zl(c[1])}",
             "reorder": lambda: f"CReorder {'true' if c[1] else 'false'} {zl(c[2])}", "pop": lambda: f"CPop {z(c[1])}",
-            "push": lambda: f"CPush {c[1]}", "swap_op": lambda: f"CSwapOp {c[1]}", "dup_op": lambda: f"CDupOp {c[1]}"}[k]()
+            "push": lambda: f"CPush {c[1]}", "emit": lambda: f"CEmit {'true' if c[1] else 'false'} {zl(c[2])} {zl(c[3])}",
+            "popmany": lambda: f"CPopMany {zl(c[1])}", "swap_op": lambda: f"CSwapOp {c[1]}", "dup_op": lambda: f"CDupOp {c[1]}"}[k]()
 
 
 def gen_scenario(rnd, ids, big):
@@ -268,9 +304,28 @@ def gen_scenario(rnd, ids, big):
             if wild and rnd.random() < 0.3:
                 ops = ops + ops[:1]
             c = ("reorder", rnd.random() < 0.2, ops)
-        elif r < 0.90 and height >= 1:
+        elif r < 0.88 and height >= 1:
             c = ("pop", rnd.randrange(0, min(3, height) + 1))
-        elif r < 0.94:
+        elif r < 0.91:
+            cand = list(dict.fromkeys(cur + sp_keys)) + [p for p in pool if p % 4 != 1]
+            ops = rnd.sample(cand, min(len(cand), rnd.randrange(1, 5)))
+            if wild and ops:
+                ops = ops + ops[:1]
+            live = [o for o in ops if o % 4 == 1 and rnd.random() < 0.5]
+            c = ("emit", rnd.random() < 0.2, ops, live)
+        elif r < 0.93 and height >= 1:
+            k = rnd.randrange(1, min(5, height) + 1)
+            mode = rnd.random()
+            if mode < 0.4:      # contiguous below the top
+                xs = [cur[height - 1 - i] for i in range(1, min(height, k + 1))]
+            elif mode < 0.7 and height >= 4:   # as many items as the deepest depth, but NOT contiguous (top included)
+                dd = rnd.randrange(2, min(height - 1, 8) + 1)
+                depths = [0, dd] + rnd.sample(range(1, dd), max(0, dd - 2))
+                xs = [cur[height - 1 - i] for i in depths]
+            else:
+                xs = rnd.sample(cur, min(k, len(cur)))
+            c = ("popmany", list(dict.fromkeys(xs)) + ([rnd.choice(pool)] if wild else []))
+        elif r < 0.95:
             c = ("push", rnd.choice([p for p in pool if p % 4 == 0]))
         elif r < 0.97 and cur:
             c = ("swap_op", rnd.choice(cur if not wild else pool))
@@ -310,7 +365,8 @@ def spill_differential(ctx, n_scen):
             if any(x > 16 for x in [len(m0)]) or 1 in [1 for c in cmds if c[0] in ("swap", "dup") and -c[1] > 16]:
                 stats["deep"] += 1
             model, extra = o[:len(want)], o[len(want):]
-            if model != want or extra != [1, 1]:
+            machine_ok = not any(c[0] == "emit" and c[1] for c in cmds)   # invoke: the label is pushed by the instruction itself
+            if model != want or (extra != [1, 1] if machine_ok else extra[1:] != [1]):
                 bad.append({"initial_stack": m0, "classes": classes, "commands": [list(map(str, c)) for c in cmds],
                             "real": want, "model": o,
                             "note": "trailing [1,1] = (emitted assembly executed on the model EVM gives the final stack, all SWAP/DUP in 1..16)"})
@@ -330,6 +386,10 @@ def asm_to_bytecode(m0, asm, final_height):
     i = 0
     while i < len(asm):
         t = asm[i]
+        if type(t).__name__ == "PUSHLABEL":
+            code += bytes([0x61]) + LABEL_IDS[t.label.label].to_bytes(2, "big")
+            i += 1
+            continue
         if t.startswith("PUSH") and t[4:].isdigit():
             n = int(t[4:])
             code += bytes([0x5F + n]) + bytes(int(b) for b in asm[i + 1:i + 1 + n])
@@ -352,7 +412,7 @@ def evm_execution(ctx, scen):
     n = 0
     bad = []
     for ids, m0, classes, cmds, real in scen:
-        if real.failed:
+        if real.failed or any(c[0] == "emit" and c[1] for c in cmds):
             continue
         final = real.stack_ids()
         try:
@@ -573,7 +633,13 @@ def corpus_checks(ctx, tier):
 
 # ------------------------------------------------------------------ entry point
 def part_stack(ctx) -> int:
-    """helper part of C14: returns the number of evaluations.  Violations are reported through ctx."""
+    """helper part of C14: returns the number of evaluations.  Violations are reported through ctx.
+    (serialised by a file lock: C14 and a standalone C14S run rebuild the same .vo files)"""
+    with coqrun.BuildLock("c14s"):
+        return _part_stack(ctx)
+
+
+def _part_stack(ctx) -> int:
     from vlib import c14s_translate as T
     from vlib.py2coq import Unsupported
 
